@@ -132,9 +132,9 @@ def cases_for(tier):
             for m in (0, 1):
                 for script in ('quadobj', 'noquadobj'):
                     if tier == 'thorough' or n < 3:
-                        combos = [(r, f) for r in ('env', 'arg') for f in ('text', 'binary')] + [('file', 'text'), ('filenl', 'binary'), ('mpopts', 'text'), ('query', 'text'), ('query-e', 'text'), ('both', 'binary')]
+                        combos = [(r, f) for r in ('env', 'arg') for f in ('text', 'binary')] + [('file', 'text'), ('filenl', 'binary'), ('mpopts', 'text'), ('query', 'text'), ('query-e', 'text'), ('both', 'binary'), ('exe', 'text'), ('env', 'text-flag2')]
                     else:
-                        combos = [('env', 'text'), ('arg', 'binary'), ('file', 'text'), ('mpopts', 'binary'), ('query-e', 'text'), ('both', 'text')]
+                        combos = [('env', 'text'), ('arg', 'binary'), ('file', 'text'), ('mpopts', 'binary'), ('query-e', 'text'), ('both', 'text'), ('exe', 'binary'), ('arg', 'text-flag2')]
                     for route, fmt in combos:
                         out.append((tuple(spec), k, m, route, fmt, script))
     return out
@@ -262,6 +262,16 @@ def run_case(binary, wd, case):
         other = 1 if k != 1 else 0
         env_opts = {'mp_options': ('' if k is None else 'objno=%d ' % other) + 'multiobj=%d' % (1 - m),
                     'vdriver_options': ' '.join(([] if k is None else ['objno=%d' % k]) + ['multiobj=%d' % m])}
+    elif route == 'exe':
+        # the driver runs under another file name (a copy "vdriver-prod"): <that name>_options is the variable to read, and when
+        # it exists the variable under the solver's own name is not read at all
+        other = 1 if k != 1 else 0
+        os.makedirs(wd, exist_ok=True)
+        alias = os.path.join(wd, 'vdriver-prod')
+        if not os.path.exists(alias): os.symlink(binary, alias)
+        binary = alias
+        env_opts = {'vdriver-prod_options': ' '.join(([] if k is None else ['objno=%d' % k]) + ['multiobj=%d' % m]),
+                    'vdriver_options': ('' if k is None else 'objno=%d ' % other) + 'multiobj=%d' % (1 - m)}
     elif route == 'mpopts':
         # the solver-independent variable mp_options, value syntax without '=': "objno 2"
         toks = ([] if k is None else ['objno %d' % k]) + ['multiobj %d' % m]
@@ -276,7 +286,10 @@ def run_case(binary, wd, case):
         env_opts = {'vdriver_options': 'tech:optionfile=c12.opt'}
     else:
         args = ('-AMPL',) + (() if k is None else ('obj:no=%d' % k,)) + ('obj:multi=%d' % m,)
-    kw = {'nl_bytes': nl_binary(model)} if fmt == 'binary' else {'nl_text': model.nl()}
+    if fmt == 'binary': kw = {'nl_bytes': nl_binary(model)}
+    elif fmt == 'text-flag2':   # "nonzero" is the NL convention for maximise: flags 2, 3, ... instead of 1
+        kw = {'nl_text': re.sub(r'^(O\d+) 1$', lambda mo: '%s %d' % (mo.group(1), 2 + int(mo.group(1)[1:])), model.nl(), flags=re.M)}
+    else: kw = {'nl_text': model.nl()}
     r = vdriverlib.run(binary, wd, args=args, script=SCRIPTS[script], env_opts=env_opts, pre=pre, **kw)
     return model, r
 
@@ -487,7 +500,7 @@ def _main(chk, tier, binary):
     vcheck.finalize_classes(chk)
     chk.set('rule', 'exhaustive: NL files with n in 0..3 objectives, objective i = {min,max} x {linear, constant only, '
             '|x0|+i+linear, (i+1)x0^2+linear, (x0+i+2)(x1-1)+linear} (%s) x objno {unset, 0..n+1} x multiobj {0,1} x {objno=/multiobj= in '
-            'vdriver_options, obj:no=/obj:multi= on the command line, objno=/multiobj= in an option file ending with / without a newline, "objno K" in mp_options, assignments followed by name=? queries with / without the -e switch, contradicting mp_options next to <solver>_options} x {text, binary NL} x {quadratic objective accepted, '
+            'vdriver_options, obj:no=/obj:multi= on the command line, objno=/multiobj= in an option file ending with / without a newline, "objno K" in mp_options, assignments followed by name=? queries with / without the -e switch, contradicting mp_options next to <solver>_options, the driver under another file name with both <name>_options variables} x {text, binary NL} x {quadratic objective accepted, '
             'not accepted}%s; one driver process per case. Oracle: reference selection function + value comparison of each '
             'delivered objective (following aux variables through AbsConstraint / quadratic constraints / fixed variables) '
             'with the NL reference evaluator at %d points separating span{1,x0,x1,|x0|,x0^2,x0*x1}; `objno N code` line. '
@@ -495,7 +508,7 @@ def _main(chk, tier, binary):
             % ('all combinations' if tier == 'thorough' else 'all combinations for n<=2; for n=3 all 125 shape triples with alternating senses',
                '' if tier == 'thorough' else ' (for n=3 route and format are paired: env+text, arg+binary)', len(POINTS)))
     chk.set('bounds', {'n': [0, 3], 'shapes': SHAPES, 'senses': SENSES, 'objno': 'unset, 0..n+1', 'multiobj': [0, 1],
-                       'routes': ['env', 'arg', 'file', 'filenl', 'mpopts', 'query', 'query-e', 'both'], 'formats': ['text', 'binary'], 'scripts': sorted(SCRIPTS)})
+                       'routes': ['env', 'arg', 'file', 'filenl', 'mpopts', 'query', 'query-e', 'both', 'exe'], 'formats': ['text', 'binary', 'text-flag2'], 'scripts': sorted(SCRIPTS)})
     chk.assumptions += [
         '.sol line `objno N code`: N is zero-based (sol.h writes objno_used()-1; ASL convention obj_no), so "objective k used" '
         'is N = k-1 and "no objective used" is N = -1; demanded: N = k-1 in single-objective mode, N = -1 when nothing was '
